@@ -715,6 +715,29 @@ func runC14(b *runner.Batch) {
 			b.Eval(fmt.Sprintf("submit|%s|%s|meta%v|%s", class, variant, hasMeta, r.State), true)
 		}
 	}
+	// the container itself is removed: that is no commit — the roster stays what the last commit fixed, what was
+	// accumulated since is fixed by the next one (seeded change C14-9: the removal sweeping the roster away, after
+	// which any signature matrix passes because no REP number is left)
+	if b.Index%2 == 0 && b.NViolations() == 0 {
+		for _, cid := range [][]byte{metaCID, plainCID} {
+			ks := pubsOf(c.freshKeys(3))
+			c.addNodes(cid, 0, ks[:2], 0)
+			c.commit(cid, []int64{1}, 0)
+			c.addNodes(cid, 0, ks[2:], 0)
+			r := e.w.Invoke(alpha, e.cn, "delete", cid, bytes.Repeat([]byte{2}, 64), []byte{})
+			b.Tx(1)
+			if !r.Halted() {
+				b.Inconclusive("delete failed: " + r.Fault)
+				break
+			}
+			c.checkRoster(cid)
+			msg := []byte("after the removal")
+			c.judgeVerify(cid, msg, c.buildMatrix(cid, msg, map[int][]*keys.PrivateKey{}, "null-matrix", -1), "null-matrix")
+			c.commit(cid, []int64{1}, 0)
+			c.checkRoster(cid)
+			b.Hit("roster-of-a-removed-container")
+		}
+	}
 	if b.Index < 2 {
 		h := b.HistoryFn()
 		if len(h) > 5 {
